@@ -4,6 +4,7 @@ import (
 	"fmt"
 	"go/constant"
 	"go/token"
+	"go/types"
 
 	"golang.org/x/tools/go/ssa"
 )
@@ -21,7 +22,10 @@ type Path struct {
 	Closed bool            // ended by returning to the start block (loop back edge)
 
 	phi   map[*ssa.Phi]ssa.Value
-	enter map[*ssa.BasicBlock]int // how often each loop head was entered on this path
+	sub   map[ssa.Value]ssa.Value   // parameters / captured variables of inlined callees -> the caller's values
+	rets  map[*ssa.Call][]ssa.Value // inlined calls -> the values the callee returned on this path
+	inl   map[*ssa.Function]bool    // callees already stepped into on this path
+	enter map[*ssa.BasicBlock]int   // how often each loop head was entered on this path
 	known map[string]bool
 	eq    map[string]constant.Value
 	neq   map[string][]constant.Value
@@ -46,6 +50,28 @@ func (p *Path) Resolve(v ssa.Value) ssa.Value {
 				return v
 			}
 			v = st
+		case *ssa.Parameter, *ssa.FreeVar:
+			r, ok := p.sub[v]
+			if !ok || r == v {
+				return v
+			}
+			v = r
+		case *ssa.Call:
+			res, ok := p.rets[x]
+			if !ok || len(res) != 1 {
+				return v
+			}
+			v = res[0]
+		case *ssa.Extract:
+			c, isCall := x.Tuple.(*ssa.Call)
+			if !isCall {
+				return v
+			}
+			res, ok := p.rets[c]
+			if !ok || x.Index >= len(res) {
+				return v
+			}
+			v = res[x.Index]
 		default:
 			return v
 		}
@@ -248,6 +274,9 @@ func (p *Path) clone() *Path {
 		Instrs: append([]ssa.Instruction(nil), p.Instrs...),
 		Conds:  append([]Fact(nil), p.Conds...),
 		phi:    make(map[*ssa.Phi]ssa.Value, len(p.phi)),
+		sub:    make(map[ssa.Value]ssa.Value, len(p.sub)),
+		rets:   make(map[*ssa.Call][]ssa.Value, len(p.rets)),
+		inl:    make(map[*ssa.Function]bool, len(p.inl)),
 		enter:  make(map[*ssa.BasicBlock]int, len(p.enter)),
 		known:  make(map[string]bool, len(p.known)),
 		eq:     make(map[string]constant.Value, len(p.eq)),
@@ -255,6 +284,15 @@ func (p *Path) clone() *Path {
 	}
 	for k, v := range p.phi {
 		q.phi[k] = v
+	}
+	for k, v := range p.sub {
+		q.sub[k] = v
+	}
+	for k, v := range p.rets {
+		q.rets[k] = v
+	}
+	for k, v := range p.inl {
+		q.inl[k] = v
 	}
 	for k, v := range p.enter {
 		q.enter[k] = v
@@ -275,7 +313,7 @@ func (p *Path) clone() *Path {
 // `x op c` where x satisfies isX and c satisfies isC.
 func (p *Path) Holds(op token.Token, isX func(ssa.Value) bool, isC func(ssa.Value) bool) bool {
 	for _, f := range p.Conds {
-		c, ok := AsCmp(f.Cond, f.Val)
+		c, ok := AsCmp(p.Resolve(f.Cond), f.Val)
 		if !ok {
 			continue
 		}
@@ -310,12 +348,73 @@ func EnumPathsN(start *ssa.BasicBlock, idx int, limit int, maxVisits int, yield 
 // hypothesis such as a loop invariant before enumeration).
 func (p *Path) Assume(v ssa.Value, val bool) { p.assume(v, val) }
 
+// InlinePolicy decides whether a call is stepped into during path
+// enumeration (the callee's instructions and branch outcomes become part of
+// the caller's path). nil disables inlining. See DefaultInline.
+var InlinePolicy func(call *ssa.Call, callee *ssa.Function) bool
+
+// SplitBoolReturns: a function that returns an undecided boolean expression is
+// enumerated as if it branched on it.
+var SplitBoolReturns = true
+
+// MaxInlineDepth bounds nested inlining.
+var MaxInlineDepth = 3
+
+// Atomic functions are never stepped into, whatever the policy says (rules
+// that treat a call as one event register the callee here).
+var Atomic = map[*ssa.Function]bool{}
+
+type inlineFrame struct {
+	b       *ssa.BasicBlock
+	i       int
+	call    *ssa.Call
+	callee  *ssa.Function
+	visited map[*ssa.BasicBlock]int
+}
+
+// inlineTarget resolves the callee of a call that may be stepped into.
+func inlineTarget(c *ssa.Call) *ssa.Function {
+	if InlinePolicy == nil || c.Call.IsInvoke() {
+		return nil
+	}
+	s := ResolveCall(c)
+	f := s.Callee
+	if f == nil || len(f.Blocks) == 0 || Atomic[f] {
+		return nil
+	}
+	if !InlinePolicy(c, f) {
+		return nil
+	}
+	return f
+}
+
 // EnumPathsSeed is EnumPathsN with initial assumptions installed by seed.
 func EnumPathsSeed(start *ssa.BasicBlock, idx int, limit int, maxVisits int, seed func(*Path), yield func(*Path)) bool {
 	count := 0
 	over := false
-	var run func(p *Path, b *ssa.BasicBlock, from *ssa.BasicBlock, i int, visited map[*ssa.BasicBlock]int)
-	run = func(p *Path, b *ssa.BasicBlock, from *ssa.BasicBlock, i int, visited map[*ssa.BasicBlock]int) {
+	var enter func(p *Path, b *ssa.BasicBlock, from *ssa.BasicBlock, i int, visited map[*ssa.BasicBlock]int, frames []inlineFrame)
+	var exec func(p *Path, b *ssa.BasicBlock, i int, visited map[*ssa.BasicBlock]int, frames []inlineFrame)
+	finish := func(p *Path, end ssa.Instruction, closed bool) {
+		p.End = end
+		p.Closed = closed
+		count++
+		if count > limit {
+			over = true
+			return
+		}
+		yield(p)
+	}
+	next := func(p *Path, from, to *ssa.BasicBlock, visited map[*ssa.BasicBlock]int, frames []inlineFrame) {
+		if to == start && len(frames) == 0 {
+			finish(p, from.Instrs[len(from.Instrs)-1], true)
+			return
+		}
+		if visited[to] >= maxVisits {
+			return // inner-loop iteration: represented by the path that leaves the loop
+		}
+		enter(p, to, from, 0, visited, frames)
+	}
+	enter = func(p *Path, b *ssa.BasicBlock, from *ssa.BasicBlock, i int, visited map[*ssa.BasicBlock]int, frames []inlineFrame) {
 		if over {
 			return
 		}
@@ -344,18 +443,99 @@ func EnumPathsSeed(start *ssa.BasicBlock, idx int, limit int, maxVisits int, see
 				}
 			}
 		}
+		exec(p, b, i, visited, frames)
+	}
+	exec = func(p *Path, b *ssa.BasicBlock, i int, visited map[*ssa.BasicBlock]int, frames []inlineFrame) {
 		for ; i < len(b.Instrs); i++ {
+			if over {
+				return
+			}
 			in := b.Instrs[i]
 			p.Instrs = append(p.Instrs, in)
 			switch t := in.(type) {
-			case *ssa.Return, *ssa.Panic:
-				p.End = in
-				count++
-				if count > limit {
-					over = true
+			case *ssa.Call:
+				callee := inlineTarget(t)
+				if callee == nil || len(frames) >= MaxInlineDepth {
+					continue
+				}
+				rec := false
+				for _, fr := range frames {
+					if fr.callee == callee {
+						rec = true
+					}
+				}
+				if rec || callee == start.Parent() || p.inl[callee] {
+					// a callee is stepped into at most once per path: its parameters then have one
+					// binding on the path, so facts about them stay unambiguous
+					continue
+				}
+				p.inl[callee] = true
+				// bind parameters and captured variables for this activation
+				args := t.Call.Args
+				for k, par := range callee.Params {
+					if k < len(args) {
+						p.sub[par] = p.Resolve(args[k])
+					}
+				}
+				if mc := closureOf(t.Call.Value); mc != nil {
+					for k, fv := range callee.FreeVars {
+						if k < len(mc.Bindings) {
+							p.sub[fv] = mc.Bindings[k]
+						}
+					}
+				}
+				p.enter[callee.Blocks[0]]++ // a fresh epoch for the callee's values
+				nf := append(append([]inlineFrame(nil), frames...), inlineFrame{b: b, i: i, call: t, callee: callee, visited: visited})
+				enter(p, callee.Blocks[0], nil, 0, map[*ssa.BasicBlock]int{}, nf)
+				return
+			case *ssa.Return:
+				if n := len(frames); n > 0 {
+					fr := frames[n-1]
+					res := make([]ssa.Value, len(t.Results))
+					for k, rv := range t.Results {
+						res[k] = p.Resolve(rv)
+					}
+					p.rets[fr.call] = res
+					p.Blocks = append(p.Blocks, fr.b)
+					exec(p, fr.b, fr.i+1, fr.visited, frames[:n-1])
 					return
 				}
-				yield(p)
+				// `return cond` is `if cond { return true } else { return false }`: a boolean result the
+				// path has not decided is split into its two outcomes
+				split := false
+				if SplitBoolReturns {
+					for _, rv := range t.Results {
+						if bt, isB := rv.Type().Underlying().(*types.Basic); !isB || bt.Kind() != types.Bool {
+							continue
+						}
+						if _, known := p.Eval(rv); known {
+							continue
+						}
+						cond := p.Resolve(rv)
+						for _, outcome := range []bool{true, false} {
+							q := p.clone()
+							c2, o2 := cond, outcome
+							for { // !x == b  is  x == !b
+								u, isNot := c2.(*ssa.UnOp)
+								if !isNot || u.Op != token.NOT {
+									break
+								}
+								c2, o2 = q.Resolve(u.X), !o2
+							}
+							q.Conds = append(q.Conds, Fact{Cond: c2, Val: o2})
+							q.assume(cond, outcome)
+							finish(q, in, false)
+						}
+						split = true
+						break
+					}
+				}
+				if !split {
+					finish(p, in, false)
+				}
+				return
+			case *ssa.Panic:
+				finish(p, in, false)
 				return
 			case *ssa.If:
 				val, ok := p.Eval(t.Cond)
@@ -369,45 +549,59 @@ func EnumPathsSeed(start *ssa.BasicBlock, idx int, limit int, maxVisits int, see
 					if !ok {
 						q.assume(t.Cond, branch)
 					}
-					step(q, b, s, visited, start, &count, limit, maxVisits, &over, yield, run)
+					next(q, b, s, visited, frames)
 				}
 				return
 			case *ssa.Jump:
-				step(p, b, b.Succs[0], visited, start, &count, limit, maxVisits, &over, yield, run)
+				next(p, b, b.Succs[0], visited, frames)
 				return
 			}
 		}
 	}
 	startIsHead := isLoopHead(start)
-	p := &Path{phi: map[*ssa.Phi]ssa.Value{}, enter: map[*ssa.BasicBlock]int{}, known: map[string]bool{}, eq: map[string]constant.Value{}, neq: map[string][]constant.Value{}}
+	p := &Path{phi: map[*ssa.Phi]ssa.Value{}, enter: map[*ssa.BasicBlock]int{}, known: map[string]bool{}, eq: map[string]constant.Value{}, neq: map[string][]constant.Value{},
+		sub: map[ssa.Value]ssa.Value{}, rets: map[*ssa.Call][]ssa.Value{}, inl: map[*ssa.Function]bool{}}
 	if startIsHead {
 		p.enter[start] = 1 // counted here so that seeded assumptions about the start block's phis keep their key
 	}
 	if seed != nil {
 		seed(p)
 	}
-	run(p, start, nil, idx, map[*ssa.BasicBlock]int{})
+	enter(p, start, nil, idx, map[*ssa.BasicBlock]int{}, nil)
 	return !over
 }
 
-func step(p *Path, from, to *ssa.BasicBlock, visited map[*ssa.BasicBlock]int, start *ssa.BasicBlock,
-	count *int, limit int, maxVisits int, over *bool, yield func(*Path),
-	run func(*Path, *ssa.BasicBlock, *ssa.BasicBlock, int, map[*ssa.BasicBlock]int)) {
-	if to == start {
-		p.End = from.Instrs[len(from.Instrs)-1]
-		p.Closed = true
-		*count++
-		if *count > limit {
-			*over = true
-			return
+// closureOf finds the MakeClosure a called function value comes from (directly,
+// or through a cell that is assigned once).
+func closureOf(v ssa.Value) *ssa.MakeClosure {
+	for i := 0; i < 8; i++ {
+		switch x := v.(type) {
+		case *ssa.MakeClosure:
+			return x
+		case *ssa.UnOp:
+			if x.Op != token.MUL {
+				return nil
+			}
+			c := Cell(x.X)
+			if c == nil {
+				return nil
+			}
+			st := CellStores(c)
+			if len(st) != 1 {
+				return nil
+			}
+			v = st[0].Val
+		case *ssa.FreeVar:
+			b := Binding(x)
+			if b == nil {
+				return nil
+			}
+			v = b
+		default:
+			return nil
 		}
-		yield(p)
-		return
 	}
-	if visited[to] >= maxVisits {
-		return // inner-loop iteration: represented by the path that leaves the loop
-	}
-	run(p, to, from, 0, visited)
+	return nil
 }
 
 // LoopHeadOf returns the innermost block that dominates b and is the target
